@@ -1,6 +1,7 @@
 /* Monitor for C03: (a) pixman_compute_composite_region against the model intersection,
  * (b) bit-level write footprint of drawing calls: nothing outside the model region may change
  * (destination, its row padding, its alpha map), (c) marking requests must write every pixel inside. */
+#include "vf_recipes.h"
 #include "vf.h"
 #include "vf_req.h"
 #include "ref_pixel.h"
@@ -211,6 +212,48 @@ static void composite_case (vf_rng *r)
     rq_free (&q);
 }
 
+/* ---------------- table-directed composites: every fast-path / iterator entry with a request that ends inside the destination ---------------- */
+static void directed_case (vf_rng *r)
+{
+    if (!n_recipes) return;
+    const recipe_t *rc = &recipes[vf_next (r) % n_recipes];
+    rq_request q; memset (&q, 0, sizeof q); amclips_t ac; memset (&ac, 0, sizeof ac);
+    recipe_request (r, rc, &q);
+    if (rp_is_indexed (q.dst.fmt) || rp_is_indexed (q.src.fmt) || (q.has_mask && rp_is_indexed (q.mask.fmt))) return;
+    /* wide rows so that routines working in groups of 2..32 pixels have whole groups to handle inside the request and neighbours outside it */
+    q.dst.w = (int)vf_range (r, 1, GW); q.dst.h = (int)vf_range (r, 1, 5);
+    rq_gen_geometry (r, &q, 0);
+    int bpp = PIXMAN_FORMAT_BPP (q.dst.fmt), per_word = bpp && bpp <= 32 ? 32 / bpp : 1;
+    /* the request is a proper part of the row; half of the time it starts and/or ends on a 32-bit word boundary of the destination (and the source is read from one) */
+    q.dx = (int)vf_range (r, 0, q.dst.w - 1); q.w = (int)vf_range (r, 1, q.dst.w - q.dx); q.dy = (int)vf_range (r, 0, q.dst.h - 1); q.h = (int)vf_range (r, 1, q.dst.h - q.dy);
+    if (per_word > 1 && vf_chance (r, 1, 2)) {
+        q.dx -= q.dx % per_word; if (vf_chance (r, 1, 2) && q.dst.w - q.dx > per_word) { q.w = (int)vf_range (r, per_word, q.dst.w - q.dx); if (vf_chance (r, 1, 2)) q.w -= q.w % per_word; if (q.w < 1) q.w = 1; }
+        if (q.src.kind == RQ_BITS && q.src.tr_class == TR_NONE) { int sb = PIXMAN_FORMAT_BPP (q.src.fmt), spw = sb && sb <= 32 ? 32 / sb : 1; q.sx = (int)vf_range (r, 0, 2) * spw; }
+        if (q.has_mask && q.mask.kind == RQ_BITS && q.mask.tr_class == TR_NONE) { int mb = PIXMAN_FORMAT_BPP (q.mask.fmt), mpw = mb && mb <= 32 ? 32 / mb : 1; q.mx = (int)vf_range (r, 0, 2) * mpw; }
+    }
+    /* untransformed bits operands cover what they are read at (so that table entries that need it are taken), with something to the right of it */
+    if (q.src.kind == RQ_BITS && q.src.tr_class == TR_NONE && !(q.src.w == 1 && q.src.h == 1)) { if (q.sx < 0) q.sx = 0; if (q.sy < 0) q.sy = 0; q.src.w = q.sx + q.w + (int)vf_range (r, 0, 40); q.src.h = q.sy + q.h + (int)vf_range (r, 0, 2); }
+    if (q.has_mask && q.mask.kind == RQ_BITS && q.mask.tr_class == TR_NONE && !(q.mask.w == 1 && q.mask.h == 1)) { if (q.mx < 0) q.mx = 0; if (q.my < 0) q.my = 0; q.mask.w = q.mx + q.w + (int)vf_range (r, 0, 40); q.mask.h = q.my + q.h + (int)vf_range (r, 0, 2); }
+    if (q.pixbuf) { q.mx = q.sx; q.my = q.sy; q.mask.w = q.src.w; q.mask.h = q.src.h; }
+    if (vf_chance (r, 1, 3)) { q.dst.n_clip = (int)vf_range (r, 1, 3); for (int i = 0; i < q.dst.n_clip; i++) { int x1 = (int)vf_range (r, 0, q.dst.w - 1), y1 = (int)vf_range (r, 0, q.dst.h - 1); q.dst.clip[i].x1 = x1; q.dst.clip[i].y1 = y1; q.dst.clip[i].x2 = x1 + (int)vf_range (r, 1, q.dst.w); q.dst.clip[i].y2 = y1 + (int)vf_range (r, 1, q.dst.h); } }
+    else q.dst.n_clip = 0;
+    if (q.dst.w > GW || q.dst.h > GH) return;
+    if (!rq_build (&q, r)) return;
+    /* opaque stretches in the pixels: several routines store whole groups directly where source / mask are opaque */
+    static grid_t g; model_region (&q, &ac, &g);
+    static char desc[1800]; rq_describe (&q, desc, sizeof desc);
+    vf_case_desc ("[table-directed %s%s#%d] %s", imp_names[rc->imp], rc->is_iter ? "-iter" : "", rc->index, desc);
+    vf_cell ("cells", vf_mix (vf_mix (40, (uint64_t)(rc - recipes)), (q.dx % per_word == 0) * 2 + ((q.dx + q.w) % per_word == 0)));
+    vf_label ("directed_recipes", "%s%s#%d", imp_names[rc->imp], rc->is_iter ? "-iter" : "", rc->index);
+    snapshot_dest (&q);
+    vf_inflight ("composite32 (table-directed): %s", desc);
+    rq_run (&q);
+    vf_count ("directed_composites", 1);
+    vf_label ("entry_bpp", "composite32/bpp%d", q.dst.buf.bpp);
+    footprint (&q, &g, "composite32", 1);
+    rq_free (&q);
+}
+
 /* ---------------- fill_boxes / fill_rectangles ---------------- */
 static void boxes_case (vf_rng *r)
 {
@@ -353,9 +396,10 @@ static void shapes_case (vf_rng *r)
 static void c03_case (long idx, vf_rng *r)
 {
     for (int k = 0; k < 8; k++) {
-        switch (vf_next (r) % 8) { case 0: case 1: case 2: case 3: composite_case (r); break; case 4: case 5: boxes_case (r); break; default: shapes_case (r); break; }
+        switch (vf_next (r) % 10) { case 0: case 1: case 2: case 3: composite_case (r); break; case 4: case 5: boxes_case (r); break; case 6: case 7: directed_case (r); break; default: shapes_case (r); break; }
     }
     if (idx < 2) vf_sample ("case %ld: 8 requests over composite32/composite (region query + footprint + marking), fill_boxes/fill_rectangles, trapezoid/triangle/glyph entry points with multi-rectangle clips", idx);
 }
 
-int main (int argc, char **argv) { return vf_main (argc, argv, "C03", NULL, c03_case, NULL); }
+static void init (void) { collect (); }
+int main (int argc, char **argv) { return vf_main (argc, argv, "C03", init, c03_case, NULL); }
